@@ -84,6 +84,11 @@ func VerifyFunc(p *Program, fc *FuncContract, prop string) (u *Unit) {
 	cx.oldEnv = env.clone()
 	// requires
 	sc := x.scopeAt(env, fi.Decl.Body.Lbrace+1)
+	for _, c := range fc.Lets {
+		v := x.named(c.Label, sc.Eval(c.Expr))
+		cx.ghosts[c.Label] = v
+		sc.locals[c.Label] = v
+	}
 	for _, c := range fc.Requires {
 		x.assume(env, sc.EvalBool(c.Expr))
 	}
